@@ -58,7 +58,11 @@ func (s *subscriptionMap) Unsubscribe(subscriptionID string) error {
 func (s *subscriptionMap) GetAllIDs() (subscriptionIDs []string) {
 	s.RLock()
 	defer s.RUnlock()
-	for subID := range s.map_ {
+	for subID, sub := range s.map_ {
+		if sub.hasBeenUnsubscribed {
+			// already ended: nothing to unsubscribe from
+			continue
+		}
 		subscriptionIDs = append(subscriptionIDs, subID)
 	}
 	return subscriptionIDs
